@@ -565,12 +565,35 @@ class TLSRecordLayer(object):
                 if self.closeSocket:
                     self._shutdown(True)
                 else:
+                    allowed_types = (ContentType.alert,
+                                     ContentType.application_data)
+                    allowed_hs_types = None
+                    if self.version > (3, 3):
+                        # the peer may have sent tickets or changed its
+                        # keys before it saw our close_notify
+                        allowed_types += (ContentType.handshake,)
+                        allowed_hs_types = (HandshakeType.key_update,)
+                        if self._client:
+                            allowed_hs_types += (
+                                HandshakeType.new_session_ticket,)
                     while not alert:
-                        for result in self._getMsg((ContentType.alert, \
-                                                  ContentType.application_data)):
+                        for result in self._getMsg(allowed_types,
+                                                   allowed_hs_types):
                             if result in (0,1):
                                 yield result
-                        if result.contentType == ContentType.alert:
+                        if isinstance(result, NewSessionTicket):
+                            result.time = time.time()
+                            self.tickets.append(result)
+                        elif isinstance(result, KeyUpdate):
+                            # we are done sending: only the keys the peer
+                            # writes with are of interest now
+                            self.session.cl_app_secret, \
+                                self.session.sr_app_secret = \
+                                self._recordLayer.calcTLS1_3KeyUpdate_sender(
+                                    self.session.cipherSuite,
+                                    self.session.cl_app_secret,
+                                    self.session.sr_app_secret)
+                        elif result.contentType == ContentType.alert:
                             alert = result
                     if alert.description == AlertDescription.close_notify:
                         self._shutdown(True)
